@@ -326,6 +326,10 @@ def probe_f10(ctx):
 
 def replay(ctx, obj):
     """re-run one split: create on both databases, evolve each in turn, report what each database holds"""
+    _r = obj.get('replay', obj)
+    if isinstance(_r, dict) and _r.get('scenario'):
+        print('this scenario (%s) is rebuilt by the check itself: VERIF_SEED=%s ./check C16' % (_r['scenario'], obj.get('seed')))
+        return 0
     evorig.setup()
     r = obj.get('replay', obj)
     if 'routes' not in r:
